@@ -405,7 +405,7 @@ func runGateOneNotice(c *core.Ctx) {
 			return
 		}
 		r := an.LastInstr(rb).(*ssa.Return)
-		errNil := an.IsNilConst(r.Results[0])
+		errNil := alwaysNil(an.ReturnValues(r)[0], 0)
 		for _, p := range paths {
 			nPaths++
 			f, n := 0, 0
@@ -466,6 +466,30 @@ func runGateOneNotice(c *core.Ctx) {
 	c.Check(len(bad) == 0 && nFwd >= 1 && nRej >= 5, nil, fname(c, fn), "paths", P.Pos(fn.Pos()),
 		fmt.Sprintf("%d entry→return paths: %d forward (no rejection), %d reject with exactly one NOTICE/OK/CLOSED and continue, %d end the connection with an error and no message", nPaths, nFwd, nRej, nErr),
 		"a path of the read function is neither forward-only, nor exactly-one-rejection, nor a connection error: "+strings.Join(bad, "; "))
+}
+
+// alwaysNil: v is nil, or the single result of a module function that
+// returns nil on every path (`return rejectWith(…)` with a helper that
+// reports "keep reading").
+func alwaysNil(v ssa.Value, depth int) bool {
+	v = an.Unwrap(v)
+	if an.IsNilConst(v) {
+		return true
+	}
+	call, ok := v.(*ssa.Call)
+	if !ok || depth > 2 {
+		return false
+	}
+	g := an.StaticCallee(&call.Call)
+	if !an.InModuleFn(g) || g.Signature.Results().Len() != 1 || len(an.ReturnBlocks(g)) == 0 {
+		return false
+	}
+	for _, rb := range an.ReturnBlocks(g) {
+		if !alwaysNil(an.ReturnValues(an.LastInstr(rb).(*ssa.Return))[0], depth+1) {
+			return false
+		}
+	}
+	return true
 }
 
 func runRecvOwner(c *core.Ctx) {
